@@ -4,6 +4,7 @@ import os
 import random
 from concurrent.futures import ThreadPoolExecutor
 import connlib
+import cmdlib
 import vlib
 
 
@@ -67,6 +68,8 @@ def run_scripts(ctx, scripts, name):
 def run(ctx):
     thorough = ctx.tier == "thorough"
     ctx.build()
+    # beside everything else (it mostly sleeps): connections on the plain and the TLS port that are quiet between two requests
+    idle = None if ctx.replay else cmdlib.IdleProbe(ctx, [1000, 11000, 31000, 61000, 125000] if ctx.tier == "thorough" else [1000, 11000, 31000])
     # exhaustive with the script history (1 client, short programs): every maximal path is a script
     mc = ctx.tlc("MC_C15", "MC_C15_quick.cfg", name="MC_C15", workers=vlib.NCPU, timeout=3000)
     # exhaustive WITHOUT the history variable (2 clients, programs up to 6 calls): design-level invariants only
@@ -130,6 +133,7 @@ def run(ctx):
                 {k: v for k, v in ev.items() if k not in ("sc", "end")})[:400], {"cmd": "vharness churn --cycles 2 --inflight 4 --seed %d" % ctx.seed, "event": ev})
         ctx.stage("stop-scenarios")
     samples = [{"program": chosen[sc - 1]["prog"], "script": chosen[sc - 1]["script"][:14], "accepted": sc in accepted} for sc in scs[1:400:150]]
+    nidle = idle.finish() if idle else 0
     return ctx.finish("model_checking", {
         "states": mc.distinct + big.distinct + mct.distinct, "transitions": mc.generated + big.generated + mct.generated,
         "traces_validated_against_impl": len(scs), "evaluations": len(scs), "distinct_nontrivial": nshapes,
